@@ -35,6 +35,22 @@ Fixpoint no_char (c : ascii) (s : string) : bool :=
   | String a s' => negb (Ascii.eqb a c) && no_char c s'
   end.
 
+(* names as the API server accepts them: no "/" inside *)
+Definition slash_free (p : json) : bool := no_char slash (get_ns p) && no_char slash (get_name p).
+
+(* hypothesis of the soundness theorems for child events: the names the lookup
+   key is built from (cached parents, the child's namespace, the reference's name) *)
+Definition names_ok (parents : list json) (s : src) (ev : event) : bool :=
+  match s with
+  | SParent => true
+  | SChild =>
+      forallb slash_free parents && no_char slash (get_ns (ev_obj ev)) &&
+      match controller_of (ev_obj ev) with Some r => no_char slash (or_name r) | None => true end
+  end.
+
+(* the decorator's parent caches: one indexer per parent kind, each keyed by ns/name *)
+Definition d_slot (p : json) : string * string * string := (get_api_version p, get_kind p, key_of p).
+
 (* ====================== CompositeController ====================== *)
 
 (* "with status changes ignored only parent updates that change neither
@@ -96,10 +112,6 @@ Definition candidates (parents : list json) (s : src) (ev : event) : list json :
 Definition unmatched_parent_event (c : ecfg) (s : src) (ev : event) : bool :=
   match s with SParent => negb (cares (e_cc c) (ev_obj ev)) | SChild => false end.
 
-(* a child event whose child carries a controller reference *)
-Definition ev_controller_ref (s : src) (ev : event) : option oref :=
-  match s with SChild => controller_of (ev_obj ev) | SParent => None end.
-
 (* ====================== DecoratorController ====================== *)
 Definition d_droppable_update (c : dcfg) (ev : event) : bool :=
   match ev with
@@ -143,8 +155,16 @@ Definition d_affects (c : dcfg) (s : src) (ev : event) (p : json) : bool :=
 Definition d_unmatched_parent_event (c : dcfg) (s : src) (ev : event) : bool :=
   match s with SParent => negb (d_cares c (ev_obj ev)) | SChild => false end.
 
-(* the decorator's parent cache: one informer per rule, each keyed by ns/name;
-   two cached objects of the same apiVersion and kind have different keys *)
-Definition d_same_slot (p q : json) : bool :=
-  String.eqb (get_api_version p) (get_api_version q) && String.eqb (get_kind p) (get_kind q) &&
-  String.eqb (key_of p) (key_of q).
+(* ====================== related objects ====================== *)
+(* "any change to an object selected by its customize rules": the states of the
+   related object the event carries (an update: before and after) *)
+Definition ev_states (ev : event) : list json :=
+  match ev with
+  | EAdd o => [o]
+  | EUpdate old cur => [old; cur]
+  | EDelete o => [o]
+  | EDeleteTombstone _ o => [o]
+  end.
+
+Definition related_affects (c : rcfg) (a : answers) (ev : event) (p : json) : bool :=
+  negb (is_resync ev) && parent_selects_related c a (ev_states ev) p.
